@@ -114,6 +114,12 @@ FORMULAS = {
             "Gen.cellwise_convexe_is_code", "Gen.cellwise_convexe_scaled_is_code", "Gen.arbitrary_aggregation_is_code"],
     "C20": ["Gen.capNegative_is_code"],
 }
+# status transitions of the source = the model's wake / advance (Properties/LifecycleThm.lean over the regenerated Gen/Lifecycle.lean)
+for _pid in ("C10", "C09", "C11", "C19"):
+    THEOREMS[_pid] = THEOREMS[_pid] + ["Gen.lifecycle_skeleton", "Gen.wake_guard_is_code", "Gen.advance_guard_is_code", "Gen.wake_is_code",
+                                       "Gen.advance_head_is_code"]
+    MODULES[_pid] = MODULES[_pid] + ["Boario.Properties.LifecycleThm"]
+
 # one Lean module per topic, so that a changed formula only breaks the theorems about it
 FORMULA_MODULE = {
     "Gen.overprod_is_code": "FormulasOverprod", "Gen.overprodPhase_is_code": "FormulasOverprod",
